@@ -1,9 +1,9 @@
 package guards
 
 import (
-	"strings"
 	"go/types"
 	"sort"
+	"strings"
 
 	"golang.org/x/tools/go/ssa"
 )
